@@ -108,54 +108,6 @@ fn c04_degenerate_g2() {
     kani::cover!(k[0] != k[2] && k[1] != k[3] && (k[0], k[1]) != (k[4], k[5]), "slanted segment");
 }
 
-/// shared edge: two triangles (p, q, a) and (q, p, b) on opposite sides of the
-/// edge pq: every centre strictly inside exactly one of them is drawn exactly
-/// once, every centre is drawn at most once *in total* (no double-drawn pixel
-/// on the shared edge), and a centre on the open shared edge segment that is
-/// strictly inside the union is drawn exactly once (no gap).
-fn shared_edge_case(py0: i32) {
-    let p = (lat(0, 2 * G), py0);
-    let q = (lat(0, 2 * G), lat(0, 2 * G));
-    let a = (lat(0, 2 * G), lat(0, 2 * G));
-    let b = (lat(0, 2 * G), lat(0, 2 * G));
-    let sa = edge(p.0, p.1, q.0, q.1, a.0, a.1);
-    let sb = edge(p.0, p.1, q.0, q.1, b.0, b.1);
-    kani::assume((sa > 0 && sb < 0) || (sa < 0 && sb > 0));
-    let k1 = [p.0, p.1, q.0, q.1, a.0, a.1];
-    let k2 = [q.0, q.1, p.0, p.1, b.0, b.1];
-    let c1 = fill_counts(k1, [(), (), ()]);
-    let c2 = fill_counts(k2, [(), (), ()]);
-    let mut shared_seen = false;
-    for j in 0..G {
-        for i in 0..G {
-            let (in1, out1) = classify(k1, i, j);
-            let (in2, out2) = classify(k2, i, j);
-            let tot = c1[j as usize][i as usize] + c2[j as usize][i as usize];
-            assert!(tot <= 1);
-            if in1 || in2 { assert!(tot == 1); }
-            if out1 && out2 { assert!(tot == 0); }
-            // on the shared edge, strictly between p and q, and on no other edge
-            let (px, py) = (2 * i + 1, 2 * j + 1);
-            let on_pq = edge(p.0, p.1, q.0, q.1, px, py) == 0;
-            let between = (px - p.0) * (px - q.0) + (py - p.1) * (py - q.1) < 0;
-            let e1a = edge(q.0, q.1, a.0, a.1, px, py);
-            let e1b = edge(a.0, a.1, p.0, p.1, px, py);
-            let e2a = edge(p.0, p.1, b.0, b.1, px, py);
-            let e2b = edge(b.0, b.1, q.0, q.1, px, py);
-            if on_pq && between && e1a != 0 && e1b != 0 && e2a != 0 && e2b != 0 {
-                assert!(tot == 1);
-                shared_seen = true;
-            }
-        }
-    }
-    kani::cover!(shared_seen, "a centre on the open shared edge");
-}
-#[kani::proof] #[kani::unwind(6)] fn c04_shared_edge_g2_y0() { shared_edge_case(0); }
-#[kani::proof] #[kani::unwind(6)] fn c04_shared_edge_g2_y1() { shared_edge_case(1); }
-#[kani::proof] #[kani::unwind(6)] fn c04_shared_edge_g2_y2() { shared_edge_case(2); }
-#[kani::proof] #[kani::unwind(6)] fn c04_shared_edge_g2_y3() { shared_edge_case(3); }
-#[kani::proof] #[kani::unwind(6)] fn c04_shared_edge_g2_y4() { shared_edge_case(4); }
-
 // ---- thorough tier: 3x3-pixel grid, one harness per position of the first vertex (7 x 7) ----
 
 pub fn fill_counts3(k: [i32; 6]) -> [[u8; 3]; 3] {
